@@ -482,8 +482,16 @@ impl Worker {
     }
 
     fn stop(&self) {
-        // Send a `None` poison pill value to stop the run loop.
-        let _ = self.sender.try_send(None);
+        // Send a `None` poison pill value to stop the run loop. If the channel
+        // is full right now, hand the pill to a short-lived thread that waits
+        // for room so that the caller never blocks and the worker still stops
+        // after everything queued before.
+        if let Err(TrySendError::Full(pill)) = self.sender.try_send(None) {
+            let sender = self.sender.clone();
+            let _ = thread::Builder::new().spawn(move || {
+                let _ = sender.send(pill);
+            });
+        }
     }
 
     // Stop reading events from the channel and wait for the "stopped" flag
